@@ -594,6 +594,57 @@ static void incdec_unary()
   }
 }
 
+// unary - and ~ on operand types narrower than int (the plain operators promote: the result is
+// an int, e.g. -(uint8_t)1 == -1 and ~(uint16_t)0 == -1); ++/-- do not compile for these types
+template<char LW, typename T>
+static void unary_narrow()
+{
+  for (long long av = (long long)std::numeric_limits<T>::min(); av <= (long long)std::numeric_limits<T>::max(); av++) {
+    if (sizeof(T) > 1 && av % 257 != 0 && av > (long long)std::numeric_limits<T>::min() + 2 &&
+        av < (long long)std::numeric_limits<T>::max() - 2 && av != 0 && av != 1 && av != -1) {
+      continue;
+    }
+    T a = (T)av;
+    for (int which = 4; which < 6; which++) {
+      W pret = which == 4 ? bits_of(-a) : bits_of(~a);
+      W ret = 0, after = 0;
+      bool same = true;
+      const char* outc = "ok";
+      GUARDED_TRY
+      {
+        g_fpe_armed = 1;
+        auto run = [&](auto& wx) {
+          if (which == 4) {
+            auto r = (-wx).UNSAFE_unverified();
+            same = std::is_same_v<decltype(r), decltype(-a)>;
+            ret = bits_of(r);
+          } else {
+            auto r = (~wx).UNSAFE_unverified();
+            same = std::is_same_v<decltype(r), decltype(~a)>;
+            ret = bits_of(r);
+          }
+          after = bits_of(wx.UNSAFE_unverified());
+        };
+        if constexpr (LW == 'T') {
+          tainted<T, Sbx> tx = a;
+          run(tx);
+        } else {
+          cell<T>(0) = a;
+          run(cell<T>(0));
+        }
+      } catch (const std::runtime_error&) {
+        outc = "abort";
+      }
+      g_fpe_armed = 0;
+      tr::Ev e("upd");
+      e.str("op", which == 4 ? "neg" : "compl").str("lw", std::string(1, LW)).str("rw", "-").str("lt", TN<T>::v).str("rt", "-");
+      e.wide("a", (W)av).wide("b", 0).wide("plain_after", bits_of(a)).wide("plain_ret", pret).wide("after", after);
+      e.wide("ret", ret).str("out", outc).boolean("fits", true).boolean("volatile_target", false).boolean("same_type", same);
+      out.put(e);
+    }
+  }
+}
+
 template<typename T, typename U>
 static void compound_all(std::mt19937_64& rng)
 {
@@ -715,6 +766,13 @@ int main(int argc, char** argv)
   incdec_unary<'V', unsigned long long>();
   incdec_unary<'T', double>();
   incdec_unary<'V', double>();
+  unary_narrow<'T', signed char>();
+  unary_narrow<'V', signed char>();
+  unary_narrow<'T', unsigned char>();
+  unary_narrow<'V', unsigned char>();
+  unary_narrow<'T', short>();
+  unary_narrow<'V', unsigned short>();
+  unary_narrow<'T', unsigned short>();
   sandbox.destroy_sandbox();
   out.close();
   return 0;
